@@ -143,6 +143,10 @@ CHAIN_POOL = [
     # one unwrapped angle, several episodes that start far apart (consecutive episodes more than pi from each other):
     # the helpers called with an episode flag on an estimator fitted without one must unwrap per episode
     [('angle', (0,), True, (0,))],
+    # a delay stage with ZERO delays in one branch of a split (it still regroups rows by episode), the other branch
+    # empty or row-wise: the two branches must be zipped episode by episode whatever the arrangement of the rows
+    [('split', [('delay', 0, 0)], [])],
+    [('split', [('sk', 0)], [('delay', 0, 0)])],
 ]
 POOL_SINGLE_EPISODE = {6}          # indices of CHAIN_POOL that are generated with one episode
 POOL_FAR_EPISODES = {8}            # ... with an episode feature and episodes alternating around -2.6 / +2.6
@@ -197,7 +201,8 @@ def gen_real_case(rng, cid, max_len=3, max_depth=2, allow=None, short_prob=0.0, 
             continue
         w = sg.min_samples(top)
         for _ in range(20):
-            order, mode = sg.gen_layout(rng, w, short_prob=short_prob,
+            order, mode = sg.gen_layout(rng, w, short_prob=(0.0 if cid < len(CHAIN_POOL) else short_prob),   # the fixed pool always gets usable episodes
+                                        
                                         max_eps=max_eps if ep else 1, extra=4,
                                         many=True if (ep and max_eps >= 3 and cid % 40 == 7) else None,
                                         # the fixed pool of pipelines meets non-contiguous arrangements whatever the random stream does
@@ -482,6 +487,19 @@ def c04_dims(case, kp):
             if o.min_samples_ != tot:
                 return False, dict(what='pipeline min_samples_ is not the sum over stages', stage=path,
                                    got=int(o.min_samples_), want=int(tot))
+        if isinstance(o, pykoop.AnglePreprocessor):
+            # hypothesis of the bridge theorem Stages_angle: the fitted output masks are one linear column per
+            # non-angle input column and a (cos, sin) pair per angle column, in input order
+            m = [bool(b) for b in o.angles_in_]
+            want = dict(lin_out_=sum(([False, False] if b else [True] for b in m), []),
+                        cos_out_=sum(([True, False] if b else [False] for b in m), []),
+                        sin_out_=sum(([False, True] if b else [False] for b in m), []))
+            for nm_, w_ in want.items():
+                if [bool(b) for b in getattr(o, nm_)] != w_:
+                    return False, dict(what=f'AnglePreprocessor.{nm_} is not the mask the input mask determines', stage=path,
+                                       angles_in=m, got=[bool(b) for b in getattr(o, nm_)])
+            if len(m) != o.n_states_in_ + o.n_inputs_in_ or len(want['lin_out_']) != o.n_states_out_ + o.n_inputs_out_:
+                return False, dict(what='AnglePreprocessor masks do not have the declared lengths', stage=path)
         if isinstance(o, pykoop.SplitPipeline):
             ws = 1 + sum(lf.min_samples_ - 1 for _, lf in o.lifting_functions_state_)
             wu = 1 + sum(lf.min_samples_ - 1 for _, lf in o.lifting_functions_input_)
@@ -687,6 +705,39 @@ def c07_prediction(case, rng, kp0):
             if not np.array_equal(alone[:, 1:], ep_p[l]):
                 return False, dict(what='prediction of one episode depends on the other episodes', label=l,
                                    relift_state=relift)
+    # the call-time episode flag overrides the fit-time one: one episode predicted with its label column under the
+    # fit-time flag, and without it (or with an added one) under the override, must give the same states
+    Xa = np.asarray(X, dtype=float)
+    if ep:
+        Xl = Xa[Xa[:, 0] == Xa[0, 0]]
+        with_label, without = Xl, Xl[:, 1:]
+    else:
+        with_label, without = np.hstack((np.zeros((Xa.shape[0], 1)), Xa)), Xa
+    if without.shape[0] >= w + 1:
+        for relift in (True, False):
+            try:
+                if ep:
+                    want = kp.predict_trajectory(with_label, relift_state=relift)[:, 1:]
+                else:
+                    want = kp.predict_trajectory(without, relift_state=relift)
+            except Exception:  # noqa
+                continue
+            if not np.all(np.isfinite(want)) or float(np.max(np.abs(want))) > 1e8:
+                continue
+            try:
+                if ep:
+                    got = kp.predict_trajectory(without, relift_state=relift, episode_feature=False)
+                else:
+                    got = kp.predict_trajectory(with_label, relift_state=relift, episode_feature=True)
+                    if got.shape[1] == want.shape[1] + 1:
+                        got = got[:, 1:]
+            except Exception as e:  # noqa
+                return False, dict(what=f'predict_trajectory with an episode_feature override raised {type(e).__name__}: {e}',
+                                   relift_state=relift, call_flag=not ep)
+            if got.shape != want.shape or not close(got, want, 1e-9):
+                return False, dict(what='predict_trajectory called with an episode_feature different from the fit-time one does not '
+                                        'give the prediction of the same episode under the fit-time flag (shape or values)',
+                                   relift_state=relift, call_flag=not ep, got_shape=list(got.shape), want_shape=list(want.shape))
     # history: the Koopman matrix of the fitted regressor is replaced (the regressor is refitted / its coef_ is
     # assigned) after predictions have been made: one-step and multi-step prediction must both follow
     coef2 = rng.normal(size=coef.shape) * (0.3 / max(1.0, np.sqrt(nso + nuo)))
